@@ -224,6 +224,10 @@ package contracts
 //@ extern func (c net.Conn) Close() (err error)
 //@ extern func (c context.Context) Err() (err error)
 //@   pure
+//@ extern func (c context.Context) Deadline() (deadline time.Time, ok bool)
+//@   pure
+//@ extern func (c context.Context) Value(key any) (v any)
+//@   pure
 //@ extern func (c net.PacketConn) ReadFrom(b []byte) (n int, addr net.Addr, err error)
 //@   modifies b[*], ioN, ioLastN, ioLastNil
 //@   ensures 0 <= n && n <= len(b) && ioN == old(ioN) + 1 && ioLastN == n && ioLastNil == (err == nil)
